@@ -122,6 +122,11 @@ impl TilemapData {
         Some(&self.tiles[index])
     }
 
+    /// The largest tile id used by this tilemap, if it has any tiles.
+    pub(crate) fn max_tile_id(&self) -> Option<u32> {
+        self.tiles.iter().map(|tile| tile.id.0).max()
+    }
+
     pub(crate) fn parse_chunk<R: Read>(mut reader: AseReader<R>) -> Result<Self> {
         let width = reader.word()?;
         let height = reader.word()?;
